@@ -272,9 +272,8 @@ template<class T> static void quat_conv(IQ g) {           // conversion construc
 }
 
 // ------------------------------------------------------------------ pairs
-template<class T, glm::qualifier Q> static void quat_pair(IQ g1, IQ g2) {
+template<class T, glm::qualifier Q> static void quat_pair_q(glm::qua<T, Q> p, glm::qua<T, Q> q) {
     typedef glm::qua<T, Q> qt; typedef glm::mat<3, 3, T, Q> m3;
-    qt p = mkq<T, Q>(g1), q = mkq<T, Q>(g2);
     qt pq = p * q; E("qmul").arg(p).arg(q).res(pq).emit();
     { qt r = p; r *= q; E("qmul_asg").arg(p).arg(q).res(r).emit(); }
     { qt r = glm::cross(p, q); E("qcross").arg(p).arg(q).res(r).emit(); }
@@ -284,6 +283,16 @@ template<class T, glm::qualifier Q> static void quat_pair(IQ g1, IQ g2) {
     { qt r = p; r += q; E("qadd").arg(p).arg(q).res(r).emit(); }
     { qt r = p; r -= q; E("qsub").arg(p).arg(q).res(r).emit(); }
     { T r = glm::dot(p, q); E("dot").arg(p).arg(q).res(r).emit(); }
+}
+
+template<class T, glm::qualifier Q> static void quat_pair(IQ g1, IQ g2) { quat_pair_q<T, Q>(mkq<T, Q>(g1), mkq<T, Q>(g2)); }
+// random unit quaternions (code -> spec direction): integer 4-tuples from the seeded integer generator, normalised in long double
+template<class T, glm::qualifier Q> static glm::qua<T, Q> random_unit(Rng& rng) {
+    long long c[4]; long double n2 = 0;
+    do { n2 = 0; for (int i = 0; i < 4; ++i) { c[i] = (long long)(rng.below(2097153)) - 1048576; n2 += (long double)c[i] * (long double)c[i]; } } while (n2 == 0);
+    long double n = sqrtl(n2);
+    glm::qua<T, Q> q; q.w = T((long double)c[0] / n); q.x = T((long double)c[1] / n); q.y = T((long double)c[2] / n); q.z = T((long double)c[3] / n);
+    return q;
 }
 
 // ------------------------------------------------------------------ angle inputs
@@ -510,6 +519,17 @@ template<class T> static void run_type() {
     std::vector<IQ> gim = near_gimbal(g_thorough ? 1 : 2);
     for (auto& g : gim) { quat_laws<T, glm::highp>(g, idx, false); if (idx % 8 == 0) quat_more<T, glm::highp>(g, idx); ++idx; }
     for (auto& q : float_gimbal<T, glm::highp>()) { quat_laws_q<T, glm::highp>(q, nullptr, idx); ++idx; }
+    {
+        Rng rng(seed_from_env() * 1000003ull + sizeof(T));
+        int nr = g_thorough ? 2500 : 160;
+        glm::qua<T, glm::highp> prev = random_unit<T, glm::highp>(rng);
+        for (int i = 0; i < nr; ++i) {
+            glm::qua<T, glm::highp> q = random_unit<T, glm::highp>(rng);
+            quat_laws_q<T, glm::highp>(q, nullptr, idx); ++idx;
+            if (i % 2 == 0) quat_pair_q<T, glm::highp>(prev, q);
+            prev = q;
+        }
+    }
     // pairs
     size_t ps = g_thorough ? 31 : 41;
     for (size_t i = 0; i < small.size(); i += ps) for (size_t j = (i / ps) % 5; j < small.size(); j += ps + 2) quat_pair<T, glm::highp>(small[i], small[j]);
